@@ -331,11 +331,20 @@ def baseReward (dsc rpsNow : Nat) (amount rpsTok : Nat) : Nat :=
 
 def sumRewards (l : List (Weekly.Tok × Nat)) : Nat := (l.map (·.2)).sum
 
-/-- `Wrapper::calculate_boosted_rewards(user)`: no config ⇒ 0 and nothing touched; otherwise
+/-- `update_energy_and_progress(user)` -/
+def updateEnergyAndProgress (s : St) (user : Nat) : Option St := do
+  let W ← s.week
+  let cur := Energy.queried (s.energy user) s.epoch
+  let g ← Weekly.updateEnergyAndProgress s.w user W cur
+  pure { s with w := g }
+
+/-- `Wrapper::calculate_boosted_rewards(user)` = `claim_boosted_yields_rewards`: no config ⇒ reward 0,
+    but the user's energy and claim progress are still moved to the current week
+    (`update_energy_and_progress(user)`, the repair of finding F6); otherwise
     `claim_multi` with the user's total farm position read now. -/
 def claimBoostedYields (s : St) (user : Nat) : Option (St × Nat) :=
   match s.b.cfg with
-  | none => some (s, 0)
+  | none => (updateEnergyAndProgress s user).map fun s' => (s', 0)
   | some cfg => do
     let W ← s.week
     let mem ← cfg.update W none
@@ -444,13 +453,6 @@ def createToken (s : St) (to : Nat) (a : Attr) : Option (St × Nat) := do
 def setFarmSupplyWeek (s : St) (supply : Nat) : Option St := do
   let W ← s.week
   pure { s with b := { s.b with farmSupplyWeek := upd s.b.farmSupplyWeek W supply } }
-
-/-- `update_energy_and_progress(user)` -/
-def updateEnergyAndProgress (s : St) (user : Nat) : Option St := do
-  let W ← s.week
-  let cur := Energy.queried (s.energy user) s.epoch
-  let g ← Weekly.updateEnergyAndProgress s.w user W cur
-  pure { s with w := g }
 
 /-- `get_orig_caller_from_opt` -/
 def origCaller (s : St) (caller : Nat) (opt : Option Nat) : Option Nat :=
